@@ -121,6 +121,7 @@ type c01Monitor struct {
 }
 
 type c01Attempt struct {
+	posFail      bool // a position query of the instance failed after the freeze: it cannot know about a split brain
 	roOK, ioOK   map[string]bool
 	uncertain    map[string]bool
 	frozenJudged bool
@@ -207,6 +208,9 @@ func (m *c01Monitor) afterStmt(w *world.World, c *world.StmtCtx) {
 	m.mu.Lock()
 	defer m.mu.Unlock()
 	a := m.att[inst]
+	if a != nil && a.frozenJudged && (c.Class == "replica_status" || c.Class == "gtid_executed") && (c.Errno != 0 || c.ReplyDropped || c.Delayed > 0) {
+		a.posFail = true
+	}
 	if a == nil || c.Errno != 0 || c.ReplyDropped {
 		return
 	}
@@ -300,7 +304,7 @@ func (m *c01Monitor) endAttempt(inst string) {
 	if len(a.promoAfter) > 0 {
 		m.sc.Violate("C01", "promotion-class-statement-after-split-brain", fmt.Sprintf("%s froze members whose transaction sets have no maximum (%s) and still issued %v", inst, a.splitWhat, a.promoAfter))
 	}
-	if in != nil && !in.deadA.Load() {
+	if in != nil && !in.deadA.Load() && !a.posFail {
 		if _, err := os.Stat(in.Cfg.Emergefile); err != nil {
 			m.sc.Violate("C01", "no-emergency-file-after-split-brain", fmt.Sprintf("%s froze members whose transaction sets have no maximum (%s) but its emergency file does not exist when the attempt ends", inst, a.splitWhat))
 		}
